@@ -38,18 +38,30 @@ type VerifNegotiated struct {
 	GRFamilies   []string
 }
 
-// VerifNegotiate runs the real handleOpen + stateChange(Established) on a fresh fsm.
-func VerifNegotiate(g *oc.Global, n *oc.Neighbor, open *bgp.BGPMessage) *VerifNegotiated {
+// VerifNegotiate runs the real handleOpen + stateChange(OpenConfirm) + stateChange(Established) on a fresh fsm; with
+// prev != nil the same fsm has first been through a whole earlier session opened by prev (a static neighbour keeps its
+// fsm across sessions), so that anything one session leaves behind for the next shows.
+func VerifNegotiate(g *oc.Global, n *oc.Neighbor, open *bgp.BGPMessage, prev *bgp.BGPMessage) *VerifNegotiated {
 	lg := slog.New(slog.NewTextHandler(io.Discard, nil))
 	f := newFSM(g, n, bgp.BGP_FSM_OPENSENT, lg)
 	defer f.outgoingCh.Close()
+	if prev != nil {
+		if next, reason, notif := f.handleOpen(&fsmMsg{MsgType: fsmMsgBGPMessage, MsgData: prev}); notif == nil {
+			f.recvOpen = prev
+			f.conn = verifConn{}
+			f.stateChange(next, reason)
+			f.stateChange(bgp.BGP_FSM_ESTABLISHED, reason)
+			f.stateChange(bgp.BGP_FSM_IDLE, newfsmStateReason(fsmHoldTimerExpired, nil, nil))
+			f.conn = nil
+		}
+	}
 	next, reason, notif := f.handleOpen(&fsmMsg{MsgType: fsmMsgBGPMessage, MsgData: open})
 	if notif != nil {
 		return &VerifNegotiated{Notif: notif.Body.(*bgp.BGPNotification)}
 	}
-	_ = next
 	f.recvOpen = open
 	f.conn = verifConn{}
+	f.stateChange(next, reason)
 	f.stateChange(bgp.BGP_FSM_ESTABLISHED, reason)
 	c := f.pConf.ReadOnly()
 	r := &VerifNegotiated{
